@@ -47,7 +47,7 @@ Stem(c) == San(c.stem, FALSE)
 \* Invocation variants.  -o and -n take a list (nargs='*') and would swallow a positional file
 \* name, so they go with -i only (as the --help text says).
 Invocations ==
-  {v \in [o : {"", "kern_out"}, n : {"", "my_ns"}, mode : {"i", "pos"}, d : {"", "gen"}] :
+  {v \in [o : {"", "kern_out", "kern.v2"}, n : {"", "my_ns"}, mode : {"i", "pos"}, d : {"", "gen"}] :
       v.mode = "pos" => (v.o = "" /\ v.n = "")}
 \* -o only renames the generated files; -n only renames the objects; each defaults,
 \* independently of the other, to the sanitised stem of the UFL file; -d only moves the files
